@@ -129,12 +129,16 @@ def stepOverBreakpoint (s : St) : St :=
         { s3 with active := put s3.active b3 }
       else s
 
-/-- first index `j ≥ i` whose instruction byte is an INT3, or `τ.length` -/
-def firstTrap (code : Code) (τ : List Addr) (i : Nat) : Nat :=
+/-- first index `j ≥ i` with `p τ[j]`, or `τ.length` if there is none -/
+def firstFrom (p : Addr → Bool) (τ : List Addr) (i : Nat) : Nat :=
   if h : i < τ.length then
-    if code τ[i] == INT3 then i else firstTrap code τ (i+1)
+    if p τ[i] then i else firstFrom p τ (i+1)
   else τ.length
 termination_by τ.length - i
+
+/-- first index `j ≥ i` whose instruction byte is an INT3, or `τ.length` -/
+def firstTrap (code : Code) (τ : List Addr) (i : Nat) : Nat :=
+  firstFrom (fun a => code a == INT3) τ i
 
 /-- `PTRACE_CONT` + `waitpid`: run until a trap or the end of the program -/
 def run (s : St) : St := { s with idx := firstTrap s.code s.τ s.idx }
